@@ -42,6 +42,8 @@ struct Pool {
     Pool()
     {
         for(int n = 0; n <= 9; ++n) { std::string s; for(int k = 0; k < n; ++k) s += (char)('a' + (k * 7 + n) % 26); strs.push_back(s); }
+        // strings whose bytes are not ASCII (UTF-8 text, bytes >= 0x81 in every position of a word): rtosc copies and compares bytes
+        strs.push_back("B\xc3\xa4sse.wav"); strs.push_back("\x81\x82\x83\xff\x85\x80z");
         for(int n : {255, 256, 4095, 4096}) { std::string s; for(int k = 0; k < n; ++k) s += (char)('A' + (k * 5 + n) % 26); strs.push_back(s); }
     }
 };
@@ -71,13 +73,13 @@ inline std::vector<ref::Arg> values(char t, bool big = false, bool snan = true)
         break;
     case 's': case 'S':
         for(size_t k = 0; k < pool().strs.size(); ++k) {
-            if(!big && k >= 10) break;
+            if(!big && k >= 12) break;
             ref::Arg a; a.type = t; a.s = pool().strs[k]; v.push_back(a);
         }
         break;
     case 'b':
         for(size_t k = 0; k < pool().strs.size(); ++k) {
-            if(!big && k >= 10) break;
+            if(!big && k >= 12) break;
             ref::Arg a; a.type = t; const std::string &s = pool().strs[k];
             a.b.assign(s.begin(), s.end());
             for(size_t j = 0; j < a.b.size(); j += 3) a.b[j] = (uint8_t)(0x80 + j); // non-ASCII and zero-free? no: include zeros
